@@ -4,7 +4,7 @@ the outcome in seeded/<id>/meta.json ("detected_by"). Usage: vlib/seed_matrix.py
 Each trial holds the exclusive /repo lock (vlib/try_seed.sh)."""
 import json, os, re, subprocess, sys, time
 V = os.path.dirname(os.path.dirname(os.path.abspath(__file__)))
-EXTRA = {"C16": ["C11"], "C12": ["C07"], "C01": ["C03"], "C03": ["C06"], "C06e": ["C07"], "C11g": ["C17"], "C07g": ["C06"], "C13g": ["C15", "C06"], "C01g": ["C05", "C03"], "C10g": ["C11"], "C03g": ["C01"], "C06g": ["C13", "C03"], "C13f": ["C14", "C08"], "C14f": ["C15"], "C06f": ["C13"], "C09f": ["C08"], "C10f": ["C11"], "C11f": ["C10"], "C01f": ["C04"], "C04f": ["C01"], "C17f": ["C12"], "C07f": ["C06"], "C15e": ["C14"], "C16e": ["C14"], "C07e": ["C06"], "C10e": ["C11"], "C05e": ["C17"], "C16d": ["C11"]}   # cross-property trials
+EXTRA = {"C06h": ["C07"], "C10h": ["C11"], "C11h": ["C17"], "C17h": ["C11"], "C16": ["C11"], "C12": ["C07"], "C01": ["C03"], "C03": ["C06"], "C06e": ["C07"], "C11g": ["C17"], "C07g": ["C06"], "C13g": ["C15", "C06"], "C01g": ["C05", "C03"], "C10g": ["C11"], "C03g": ["C01"], "C06g": ["C13", "C03"], "C13f": ["C14", "C08"], "C14f": ["C15"], "C06f": ["C13"], "C09f": ["C08"], "C10f": ["C11"], "C11f": ["C10"], "C01f": ["C04"], "C04f": ["C01"], "C17f": ["C12"], "C07f": ["C06"], "C15e": ["C14"], "C16e": ["C14"], "C07e": ["C06"], "C10e": ["C11"], "C05e": ["C17"], "C16d": ["C11"]}   # cross-property trials
 ids = sys.argv[1:] or sorted(os.listdir(os.path.join(V, "seeded")))
 claimed = {c["property_id"] for c in json.load(open(os.path.join(V, "MANIFEST.json")))["checks"]}
 for sid in ids:
